@@ -19,7 +19,8 @@ RULE = ("chunks (C,Z,Y,X) with C in 1..3 and axes 1..9 (quick) / 1..14 plus 64^3
         "presented (stratified) as native / big-endian / narrower unsigned type / Fortran order / strided view / "
         "read-only and must be left unchanged; sessions: one encoder object encodes and decodes several chunks "
         "(same shape, another shape, same shape again) and every earlier result is re-checked afterwards; one "
-        "large chunk per run (channel > 2^20 words, table offsets using bits 20..23) judged by the oracles only. "
+        "large chunk per run (channel > 2^20 words, table offsets using bits 20..23) judged by the oracles only; "
+        "blocks whose distinct tables collide under CRC-32 / Adler-32 (recorded pairs and a fresh birthday search). "
         "non-trivial = at least 2 blocks in a channel and a block with >= 2 labels")
 
 POOL_SIZES = [1, 2, 3, 4, 5, 16, 17, 256, 257, 300]
@@ -302,6 +303,63 @@ def edge_cases():
     return out
 
 
+# label sets whose sorted little-endian table bytes have equal length and equal CRC-32 (random
+# sampling meets such a pair with probability 2^-32 per pair of tables: they are regression inputs)
+CRC32_COLLIDING_TABLES = [
+    ("uint32", [7405403, 16488276], [2769076, 11651785]),
+    ("uint32", [4676163, 6503254], [35306, 16203634]),
+    ("uint64", [17352606086, 889083192700, 1048158989099], [403425361052, 463355558615, 467666295062]),
+    ("uint64", [719416887463, 1010184768319, 1049246768751], [330550796307, 583173516059, 696741396096]),
+]
+
+
+def find_checksum_collisions(rng, want=3):
+    """Fresh pairs of distinct equal-sized lookup tables that collide under the checksums an
+    implementation might be tempted to key table re-use by (CRC-32, Adler-32, Python's hash of the
+    first/last bytes is not searchable): a birthday search over 2-label uint32 tables, ~0.3 s."""
+    import zlib
+    out = []
+    for name, fn, nsamp in (("crc32", zlib.crc32, 260000), ("adler32", zlib.adler32, 6000)):
+        seen, found = {}, 0
+        for _ in range(nsamp):
+            a = rng.getrandbits(24)
+            b = rng.getrandbits(24)
+            if a == b:
+                continue
+            t = (min(a, b), max(a, b))
+            k = fn(struct.pack("<II", *t))
+            o = seen.setdefault(k, t)
+            if o != t:
+                out.append(("uint32", list(o), list(t), name))
+                found += 1
+                if found >= want:
+                    break
+    return out
+
+
+def collision_cases(rng):
+    """Channels whose blocks hold exactly the label sets A, B, A (and B, A in a second channel):
+    block B must get its own table although its table bytes collide with A's under a checksum."""
+    cases = []
+    pairs = [(dt, ta, tb, "crc32 (recorded)") for dt, ta, tb in CRC32_COLLIDING_TABLES] + find_checksum_collisions(rng)
+    for dt, ta, tb, how in pairs:
+        n = len(ta)
+        for C in (1, 2):
+            vals = []
+            for c in range(C):
+                seq = (ta, tb, ta) if c == 0 else (tb, ta, tb)
+                for t in seq:
+                    vals += t
+            cases.append({"dt": dt, "C": C, "shape": [3 * n, 1, 1], "blk": [n, 1, 1], "values": vals,
+                          "pool": 2 * n, "note": "tables colliding under " + how, "form": "native"})
+        # the same label sets in 8x8x8 blocks, every label present
+        seq = (ta, tb, ta)
+        vals = [seq[x // 8][(x + y + z) % n] for z in range(8) for y in range(8) for x in range(24)]
+        cases.append({"dt": dt, "C": 1, "shape": [24, 8, 8], "blk": [8, 8, 8], "values": vals, "pool": 2 * n,
+                      "note": "tables colliding under " + how, "form": "native"})
+    return cases
+
+
 # ------------------------------------------------------------------ one batch of cases
 
 def check_cases(R, cases, model_level="full", kind="gen"):
@@ -555,11 +613,52 @@ def run_large(R):
             break
 
 
+def run_offset_limit(R):
+    """Thorough tier only (about 3 s and 300 MB): one channel that needs a NEW lookup table 2^24 words
+    (64 MiB) or more into the channel - beyond the format's 24-bit table offset.  The encoder must
+    either refuse (the model: Crash AssertionError, theorem C02_encode_ok's bound is exceeded) or
+    return bytes from which the format reader recovers the labels; it must not return a file that
+    decodes to other labels."""
+    import numpy as np
+    dt, blk = "uint64", [64, 64, 64]
+    nb = 23
+    shape = [64 * nb, 64, 64]
+    X, Y, Z = shape
+    n = X * Y * Z
+    a = (np.arange(n, dtype=np.uint64) * np.uint64(2654435761) + np.uint64(2 ** 40 + 1)).reshape(1, Z, Y, X)
+    enc = make_encoder(dt, 1, blk)
+    case = {"dt": dt, "C": 1, "shape": shape, "blk": blk,
+            "note": "offset limit: a[i] = i*2654435761 + 2^40+1 (all labels distinct), 23 blocks of 3 MiB"}
+    R.case(case, nontrivial=True)
+    ib = outcome_of(lambda: bytes(enc.encode(a)))
+    R.count("offset_limit:" + (ib[0] if ib[0] != "Crash" else "refused-" + ib[1]))
+    if ib[0] != "ok":
+        if ib != ["Crash", "AssertionError"]:
+            R.violation("the encoder failed in an unexpected way beyond the 24-bit offset limit", case, {"impl": ib})
+        return
+    buf = ib[1]
+    rng = R.rng
+    vox = [(rng.randrange(Z), rng.randrange(Y), rng.randrange(X)) for _ in range(600)]
+    vox += [(rng.randrange(Z), rng.randrange(Y), 64 * (nb - 1) + rng.randrange(64)) for _ in range(600)]
+    for (z, y, x) in vox:
+        try:
+            v = spec_voxel_py(buf, dt, shape, blk, 0, z, y, x)
+        except ValueError as exc:
+            v = str(exc)
+        if v != int(a[0, z, y, x]):
+            R.violation("the encoder returned bytes for a channel beyond the 24-bit table offset limit that do "
+                        "not decode to the chunk", case, {"voxel_zyx": [z, y, x], "read": v, "want": int(a[0, z, y, x])})
+            return
+
+
 def run(R):
     R.rule = RULE
     rng = R.rng
     quick = R.tier == "quick"
     check_cases(R, edge_cases(), kind="edge")
+    cc = collision_cases(rng)
+    R.extra["checksum_collision_pairs"] = len(cc) // 3
+    check_cases(R, cc, kind="collision")
     run_sessions(R, quick)
     run_large(R)
     # exhaustive tiny shapes x blocks with two labels
@@ -598,6 +697,7 @@ def run(R):
             big.append({"dt": dt, "C": 1, "shape": shape, "blk": list(shape), "values": vals,
                         "pool": nvox, "note": "32-bit block"})
         check_cases(R, big, model_level="none", kind="big")
+        run_offset_limit(R)
         R.notes.append("chunks above ~16^3 voxels and the 32-bit blocks are judged by the Python oracles "
                        "(independent format decoder, package decoder) only: the extracted model is too slow there")
     for w in (0, 1, 2, 4, 8, 16) + (() if quick else (32,)):
@@ -652,6 +752,15 @@ def replay(R, payload):
     """Re-run the recorded case on the current tree; True iff the oracle still rejects."""
     import numpy as np
     case = payload.get("case") or (payload.get("disagreements") or [{}])[0].get("case", {})
+    if str(case.get("note", "")).startswith("offset limit"):
+        viol = []
+        R2 = type("Tmp", (), {})()
+        R2.case = lambda *a, **k: None
+        R2.count = lambda *a, **k: None
+        R2.violation = lambda *a, **k: viol.append(a)
+        R2.rng = __import__("random").Random(0)
+        run_offset_limit(R2)
+        return bool(viol)
     if str(case.get("note", "")).startswith("large chunk"):
         case = dict(case)
         case.pop("data", None)
